@@ -106,6 +106,24 @@ CLAIMS = {
   design="6.20"),
 }
 
+SCALE = {
+ "C06": " A fifth of the random ranges are longer than 292 years (up to the whole calendar).",
+ "C07": " One tree in 40 has a sibling list of 40..160 nodes (class wide:>=40-siblings in evidence).",
+ "C08": " One tree in 30 has a sibling list of 40..160 nodes; several goroutines also compare never-read trees at once and must get the single caller's diff.",
+ "C09": " One tree in 30 has a sibling list of 40..160 nodes; lists are also merged through MergeDocuments (nil document = empty side).",
+ "C10": " One pair in 60 has 20..45 people per side and one in 500 has 258..330 (classes big / huge in evidence).",
+ "C11": " One pair in 60 has 20..40 people per side; a history sub-check edits the documents through the API and compares the matching with that of the same texts decoded from nothing.",
+ "C12": " Surrounding similarity is computed with and without forceFullCalculation; names up to 180 bytes; one pair in 80 has 20..40 people.",
+ "C13": " One start document in 120 has 30..100 people; records are added under pointers already in use and the record added last is deleted; a quarter of the histories are read by 6 goroutines at once after every step.",
+ "C14": " One file in 120 has 25..50 people; names up to 180 bytes.",
+ "C15": " Variables are also referred to in another case than their definition.",
+ "C16": " A returned result must stay what it was while a companion query runs on the same document; one document in 60 has 25..300 people.",
+ "C17": " One document in 40 has 25..70 people (more than 32 places); dead people may carry exactly the name of another dead person.",
+ "C18": " One document in 100 has 15..30 people; the nameless person has no NAME line, an empty one or '//'.",
+ "C19": " One document in 50 (first sub-check) has 25..70 people; names, places and source pointers of up to 420 bytes that differ in their last byte only.",
+ "C20": " One document in 25 has a family of 13..22 children; the HTML table rendered from the report must have one row per warning.",
+}
+
 NOT_YET = "check not built yet in this session (see DESIGN.md section 6 for the plan)"
 
 def main():
@@ -124,7 +142,7 @@ def main():
             "evidence_file": "/verif/evidence/%s.json" % pid,
             "replay_cmd_template": "python3 check.py %s --replay {path}" % pid,
             "engine": "gocheck",
-            "level_claimed": {"category": "exploration", "text": c["text"], "design_ref": "DESIGN.md " + c["design"]},
+            "level_claimed": {"category": "exploration", "text": c["text"] + SCALE.get(pid, ""), "design_ref": "DESIGN.md " + c["design"]},
             "level_note": c["note"],
             "technique": c["technique"],
         })
